@@ -24,6 +24,8 @@ claimed = {
          ENGINE_NOTE + "; dispatch in the protocol handlers, forwarding by the transparency layer and the follower expiry re-arm not yet under contract; two-process behaviour is outside", "4/C10"),
  "C17": ("proof", "LCount/LRCount arguments at every reply site of Lock/UnLock equal the counters read under the mutex; LockedCount and WaitCount change exactly with the manager's hold total and queue additions along every path of Lock/UnLock; RemoveLockManager drops the key's value whenever it releases the key",
          ENGINE_NOTE + "; reference-count reclamation (drain lemma) not proved", "4/C17"),
+ "C13": ("proof", "zero-annotation safety sweep over every function of package protocol and the connection-handling types of package server (stream, binary/text/transparency protocols, value-frame helpers): each index, slice, nil dereference, type assertion, division and explicit panic is an obligation proved for all inputs of the function (callees inlined one level); the claimed set is what discharges on the pinned tree",
+         "function-level: obligations that need facts from callers and do not discharge are NOT claimed (listed as unproved_unclaimed in the evidence); receivers of methods are assumed non-nil; 'does not affect other connections' beyond no-panic is outside", "4/C13"),
  "C14": ("proof", "for all field values / all 64-byte inputs: Decode(Encode(x)) == x and Encode(Decode(b)) == b on every defined byte for all 20 command/result types (real Encode/Decode bodies composed by harness functions), and the LOCK/UNLOCK request and response frames match the README offsets byte for byte",
          "string fields (CALL method name, error type, leader host) are excluded from the value round trip (strings.Trim not modelled); server-side hand-inlined codecs, text parser chunk independence and text<->binary equivalence not yet under contract", "4/C14"),
  "C12": ("proof", "CompareAofId equals the specified log-position order for all 2^256 input pairs; acceptor handlers (remote and self proposal/commit): accepted and committed numbers never decrease, a proposal is accepted only above both and only while no commit is outstanding, a commit only for exactly the accepted number, once, and the reply is an ack iff the state changed; DoVote only ever selects a data-bearing member of non-zero weight (loop invariant); vote/proposal/commit succeed only with len(members)/2+1 answers",
